@@ -60,6 +60,7 @@ fn main() {
         "insn" => insn::run(num(2, 0), num(3, 100_000), num(4, 16) as usize),
         "calib" => insn::calib(num(2, 0), num(3, 8) as usize),
         "range" => range::run(num(2, 0), num(3, 10_000)),
+        "table" => range::table(),
         "probe" => {
             let arch = args.get(2).map(String::as_str).unwrap_or("");
             range::probe(arch, num(3, 0) as u32, num(4, 0), num(5, 0));
